@@ -212,7 +212,64 @@ fn macro_programs(em: &mut Emit, rng: &mut Rng, n: u64) {
     }
 }
 
+/// Inside a macro body a host function that reads a variable by name through its
+/// `FunctionContext` sees what the body sees: the iteration variable's current element when the
+/// macro binds that name, the outer binding otherwise (also when the body never mentions the name
+/// itself).  A law on the implementation: every program gives the same result with the identifier
+/// and with the host call in its place.
+pub fn host_lookup_law(em: &mut Emit) {
+    use cel_interpreter::{FunctionContext, Program};
+    let build = || {
+        let mut ctx = Context::default();
+        ctx.add_variable_from_value("a", Value::Int(100));
+        ctx.add_variable_from_value("l", Value::List(std::sync::Arc::new(vec![Value::Int(1), Value::Int(2), Value::Int(3)])));
+        ctx.add_variable_from_value("ll", Value::List(std::sync::Arc::new(vec![
+            Value::List(std::sync::Arc::new(vec![Value::Int(1)])),
+            Value::List(std::sync::Arc::new(vec![Value::Int(2), Value::UInt(2), Value::Float(2.0)])),
+        ])));
+        ctx.add_variable_from_value("m", Value::Map(cel_interpreter::objects::Map { map: std::sync::Arc::new(std::collections::HashMap::from([
+            (cel_interpreter::objects::Key::Int(7), Value::Int(1)),
+        ])) }));
+        ctx.add_function("cura", |ftx: &FunctionContext| ftx.ptx.get_variable("a"));
+        ctx.add_function("curb", |ftx: &FunctionContext| ftx.ptx.get_variable("b"));
+        ctx
+    };
+    let templates = [
+        "l.map(a, A)", "l.map(a, [A, A])", "l.filter(a, A > 1)", "l.all(a, A > 0)", "l.exists(a, A == 2)", "l.exists_one(a, A == 2)",
+        "l.existsOne(a, A == 3)", "l.map(a, A > 1, A * 2)", "m.map(a, A)", "m.all(a, A == 7)", "[A, l.map(a, A), A]", "l.map(b, A + B)",
+        "ll.map(a, a.map(b, [A.size(), B]))", "ll.map(b, b.map(a, A))", "ll.map(a, A.map(a, A))", "l.map(a, l.map(b, A * B))",
+        "l.map(a, 1)", "[l.map(b, B), A]", "l.map(a, l.filter(a, A > 1).size() + A)", "l.map(b, B > 1 ? A : B)", "has(m.x) || l.all(a, A < 4)",
+        "B", "l.map(a, B)", "[].map(a, A)", "[[]].map(a, A.size())", "l.map(a, {A: A})", "l.map(a, {'k': A}.k)",
+    ];
+    for t in templates {
+        let with_ident = t.replace('A', "a").replace('B', "b");
+        let with_host = t.replace('A', "cura()").replace('B', "curb()");
+        let (s1, s2) = (with_ident.clone(), with_host.clone());
+        let law = guarded(move || {
+            let ctx = build();
+            let run = |s: &str| match Program::compile(s) {
+                Ok(p) => sx_result(&p.execute(&ctx)),
+                Err(_) => "(reject)".to_string(),
+            };
+            let (r1, r2) = (run(&s1), run(&s2));
+            // the same inside an inner scope of the host's own that rebinds nothing
+            let inner = ctx.new_inner_scope();
+            let r3 = match Program::compile(&s2) {
+                Ok(p) => sx_result(&p.execute(&inner)),
+                Err(_) => "(reject)".to_string(),
+            };
+            if crate::canon_local(&r1) == crate::canon_local(&r2) && crate::canon_local(&r1) == crate::canon_local(&r3) {
+                "(bool true)".to_string()
+            } else {
+                format!("(law-violated host-lookup-differs identifier: {} host function: {} in an inner scope: {})", r1, r2, r3)
+            }
+        });
+        em.case("(echo (bool true))", &law, "nt=1;kind=law-host-lookup", &format!("{}  vs  {}", with_ident, with_host));
+    }
+}
+
 pub fn run(em: &mut Emit, thorough: bool, seed: u64) {
+    host_lookup_law(em);
     for len in 1..=(if thorough { 7 } else { 5 }) {
         enumerate(em, len);
     }
